@@ -14,10 +14,10 @@ def capG : Glob := ⟨.capture, .capture⟩
 def GInv (fs : FS) : Prop :=
   fs.marker = true → fs.so = .complete ∧ fs.lock = .source ∧ fs.obj = true
 
-/-- What is known about globals of a request that left the `try` block by an exception. -/
+/-- What is known about a request that left `_compile_objects` by an exception: its globals are
+restored, and the exception is not "marker already exists". -/
 def FailG (g : Glob) (c : Cause) : Prop :=
-  g.stdout = .user ∧ (c = .gen → g.handlers = .user) ∧ (c = .compile → g.handlers = .capture) ∧
-    c ≠ .marker
+  g = userG ∧ c ≠ .marker
 
 /-- Control-state specific facts about one process, relative to the file system. -/
 def LocPc (timeout : Nat) (fs : FS) (p : Proc) : Prop :=
@@ -37,6 +37,7 @@ def LocPc (timeout : Nat) (fs : FS) (p : Proc) : Prop :=
   | .bRestore => p.g = ⟨.capture, .user⟩ ∧ p.saved = userG ∧ fs.marker = true
   | .bFind => fs.marker = true ∧ p.g = userG
   | .bLoad => fs.marker = true ∧ p.g = userG
+  | .bFailRestore c => p.g = ⟨.capture, .user⟩ ∧ p.saved = userG ∧ c ≠ .marker
   | .bFail c => FailG p.g c
   | .done _ so => so = .complete ∧ p.g = userG
   | .raised .timeout => p.polls = timeout ∧ p.g = userG
@@ -69,6 +70,9 @@ theorem stepProc_local (t : Nat) (fs : FS) (p : Proc) (c : Choice)
     · cases c <;> cases marker <;>
         simp_all [stepProc, stepLive, Loc, LocPc, GInv, FailG, Pc.terminal, Pc.isB, Pc.isPre, userG, capG,
           if_neg (Nat.not_lt.mpr ht)] <;> omega
+  case raised e =>
+    cases e <;> cases c <;>
+      simp_all [stepProc, stepLive, Loc, LocPc, GInv, FailG, Pc.terminal, Pc.isB, Pc.isPre, userG, capG]
   all_goals cases c
   all_goals
     simp_all [stepProc, stepLive, Loc, LocPc, GInv, FailG, Pc.terminal, Pc.isB, Pc.isPre, userG, capG,
@@ -137,10 +141,10 @@ theorem stepProc_counts (t : Nat) (fs : FS) (p : Proc) (c : Choice) :
       apply_ite Proc.pc, apply_ite Pc.preC, apply_ite Obs.op] <;>
     simp [Pc.preC] <;> (repeat' split) <;> simp_all
 
-theorem stepProc_fuel (t : Nat) (fs : FS) (p : Proc) (c : Choice) :
+theorem stepProc_fuel (t : Nat) (fs : FS) (p : Proc) (c : Choice) (hc : c ≠ .again) :
     fuel t (stepProc t fs p c).2.1.pc ≤ fuel t p.pc - 1 := by
   obtain ⟨pc, g, saved, polls⟩ := p
-  cases pc <;> cases c <;>
+  cases c <;> (try exact absurd rfl hc) <;> cases pc <;>
     simp [stepProc, stepLive, Pc.terminal, Proc.compileRaises, apply_ite Prod.fst, apply_ite Prod.snd,
       apply_ite Proc.pc, apply_ite (fuel t)] <;>
     simp [fuel] <;> (repeat' split) <;> omega
@@ -153,7 +157,7 @@ theorem fuel_le (t : Nat) (pc : Pc) : fuel t pc ≤ t + 13 := by
 
 /-- Failure-free steps never enter the `except` block (given the invariant). -/
 def Pc.faulty : Pc → Bool
-  | .bFail _ | .raised (.build _) | .dead => true
+  | .bFailRestore _ | .bFail _ | .raised (.build _) | .dead => true
   | _ => false
 
 theorem stepProc_nf (t : Nat) (fs : FS) (p : Proc) (hl : Loc t fs p) (hf : p.pc.faulty = false) :
@@ -162,7 +166,7 @@ theorem stepProc_nf (t : Nat) (fs : FS) (p : Proc) (hl : Loc t fs p) (hf : p.pc.
   cases pc <;>
     simp_all [stepProc, stepLive, Pc.terminal, Loc, LocPc, Pc.isPre, Pc.isB, apply_ite Prod.fst, apply_ite Prod.snd,
       apply_ite Proc.pc, apply_ite Pc.faulty] <;>
-    simp_all [Pc.faulty] <;> (repeat' split) <;> simp_all
+    (try simp_all [Pc.faulty]) <;> (repeat' split) <;> (try simp_all)
 
 /-- Once the marker exists no step acquires the lock or invokes the compiler. -/
 theorem stepProc_reuse (t : Nat) (fs : FS) (p : Proc) (c : Choice) (hl : Loc t fs p) (hg : GInv fs)
@@ -352,7 +356,7 @@ theorem reachNF_reach {s : Sys} (h : ReachNF s) : Reach s := by
 
 /-! ### Fuel: every request takes a bounded number of effective steps -/
 
-theorem fuelAt_step_self (s : Sys) (pid : Nat) (c : Choice) :
+theorem fuelAt_step_self (s : Sys) (pid : Nat) (c : Choice) (hc : c ≠ .again) :
     fuelAt (step s pid c) pid ≤ fuelAt s pid - 1 := by
   cases hp : s.procs[pid]? with
   | none =>
@@ -361,7 +365,7 @@ theorem fuelAt_step_self (s : Sys) (pid : Nat) (c : Choice) :
   | some p =>
     have h := step_procs_self s pid c p hp
     simp only [fuelAt, h.1, hp, step_timeout]
-    exact stepProc_fuel _ _ _ _
+    exact stepProc_fuel _ _ _ _ hc
 
 theorem fuelAt_step_other (s : Sys) (pid j : Nat) (c : Choice) (h : j ≠ pid) :
     fuelAt (step s pid c) j = fuelAt s j := by
@@ -370,16 +374,19 @@ theorem fuelAt_step_other (s : Sys) (pid j : Nat) (c : Choice) (h : j ≠ pid) :
 /-- Number of times `pid` is scheduled. -/
 def sched (sch : List (Nat × Choice)) (pid : Nat) : Nat := (sch.filter (fun x => x.1 == pid)).length
 
-theorem fuelAt_run (s : Sys) (sch : List (Nat × Choice)) (j : Nat) :
+/-- Request `j` does not issue a new request within the schedule. -/
+def noRetry (sch : List (Nat × Choice)) (j : Nat) : Prop := ∀ x ∈ sch, x.1 = j → x.2 ≠ .again
+
+theorem fuelAt_run (s : Sys) (sch : List (Nat × Choice)) (j : Nat) (hn : noRetry sch j) :
     fuelAt (run s sch) j ≤ fuelAt s j - sched sch j := by
   induction sch generalizing s with
   | nil => simp [run, sched]
   | cons a rest ih =>
     obtain ⟨pid, c⟩ := a
-    have h1 := ih (step s pid c)
+    have h1 := ih (step s pid c) (fun x hx => hn x (by simp [hx]))
     by_cases hj : pid = j
     · subst hj
-      have h2 := fuelAt_step_self s pid c
+      have h2 := fuelAt_step_self s pid c (hn (pid, c) (by simp) rfl)
       simp [run, sched, List.filter_cons] at h1 ⊢
       omega
     · have h2 := fuelAt_step_other s pid j c (Ne.symm hj)
@@ -393,9 +400,10 @@ theorem fuelAt_le (s : Sys) (j : Nat) : fuelAt s j ≤ s.timeout + 13 := by
 
 /-- A request that has been scheduled `timeout + 13` times has returned, raised or died. -/
 theorem terminal_of_sched (s : Sys) (sch : List (Nat × Choice)) (j : Nat) (p : Proc)
+    (hn : noRetry sch j)
     (hs : sched sch j ≥ s.timeout + 13) (hp : (run s sch).procs[j]? = some p) :
     p.pc.terminal = true := by
-  have h1 := fuelAt_run s sch j
+  have h1 := fuelAt_run s sch j hn
   have h2 := fuelAt_le s j
   have h3 : fuelAt (run s sch) j = 0 := by omega
   simp only [fuelAt, hp, run_timeout] at h3
@@ -547,8 +555,9 @@ theorem pollsAt_init (n t j : Nat) : pollsAt (init n t) j = 0 := by
 
 theorem stepProc_fail (t : Nat) (fs : FS) (p : Proc)
     (h : p.pc = .bGen ∨ p.pc = .bSrc ∨ p.pc = .bObj ∨ p.pc = .bLink1 ∨ p.pc = .bLink2) :
-    (∃ cause, (stepProc t fs p .fail).2.1.pc = .bFail cause) ∧ (stepProc t fs p .fail).1 = fs ∧
-    (stepProc t fs p .fail).2.2.res = .raise := by
+    ((p.pc = .bGen ∧ (stepProc t fs p .fail).2.1.pc = .bFail .gen) ∨
+      (p.pc ≠ .bGen ∧ (stepProc t fs p .fail).2.1.pc = .bFailRestore .compile)) ∧
+    (stepProc t fs p .fail).1 = fs ∧ (stepProc t fs p .fail).2.2.res = .raise := by
   obtain ⟨pc, g, saved, polls⟩ := p
   rcases h with h | h | h | h | h <;> simp only at h <;> subst h <;>
     simp [stepProc, stepLive, Pc.terminal, Proc.compileRaises]
